@@ -285,8 +285,12 @@ pub fn seq_scenario(q: BoxedStrategy<QCfg>, max_len: usize, add_stream_on_mpmc: 
 /// them.  `FutWait::notify` treats a parked list longer than its inline buffer differently.
 pub fn crowd_scenario(opts: ExecOpts, hangup_only: bool) -> BoxedStrategy<Scenario> {
     let q = qcfg(BOTH, FutMode::Always, prop_oneof![Just(1u8), Just(2u8), Just(4u8)].boxed(), wait_any());
-    (q, 6usize..=13, any::<bool>(), 0u8..5, any::<bool>(), vec(seq_op(SeqAlphabet { futures_ops: true, add_stream: false, teardown: false }), 0..6))
-        .prop_map(move |(q, k, sink_side, event, lagging, tail)| {
+    // storm: one of the parked stream tasks is polled again and again (30..45 times) without a send
+    // in between - every poll registers the task once more - before the event that must still
+    // wake the task that polled only once (round-7 seed C07-9: a bounded park list evicting its
+    // oldest entry)
+    (q, 6usize..=13, any::<bool>(), 0u8..5, any::<bool>(), vec(seq_op(SeqAlphabet { futures_ops: true, add_stream: false, teardown: false }), 0..6), prop_oneof![3 => Just(0u8), 1 => 30u8..=45])
+        .prop_map(move |(q, k, sink_side, event, lagging, tail, storm)| {
             // C07 only looks at the last sender going away while stream tasks are parked
             let (sink_side, event) = if hangup_only { (false, 2 + event % 2) } else { (sink_side, event) };
             let n = q.n();
@@ -333,6 +337,9 @@ pub fn crowd_scenario(opts: ExecOpts, hangup_only: bool) -> BoxedStrategy<Scenar
                 }
                 for i in 0..k {
                     ops.push(Op::Poll { rx: sel(i, k), by_ref: i % 2 == 0 });
+                }
+                for _ in 0..storm {
+                    ops.push(Op::Poll { rx: sel(1, k), by_ref: true });
                 }
                 ops.push(match event {
                     0 => Op::TrySend { tx: 0 },
@@ -416,6 +423,7 @@ pub struct TrafficPlan {
     pub streams: Vec<Vec<ConsumerPlan>>,
     pub sched: Schedule,
     pub weak_cas: bool,
+    pub mpmc_uni_fork: bool,
 }
 
 #[derive(Clone, Debug)]
@@ -438,6 +446,11 @@ pub struct TrafficParams {
     pub fork: u32,
     /// weight of a producer-side burst of sender clone+drop rounds
     pub w_burst: u32,
+    /// weight of a non-blocking iteration among the consumer operations
+    pub w_try_iter: u32,
+    /// a futures single-consumer receiver of a move-out queue may call add_stream_with during
+    /// traffic (the API of known finding D7; only where the oracle is indifferent to D7 itself)
+    pub mpmc_uni_fork: bool,
 }
 
 impl Default for TrafficParams {
@@ -459,6 +472,8 @@ impl Default for TrafficParams {
             blocking_only: false,
             fork: 0,
             w_burst: 0,
+            w_try_iter: 1,
+            mpmc_uni_fork: false,
         }
     }
 }
@@ -496,7 +511,7 @@ fn consumer_plan(p: TrafficParams, may_leave: bool) -> BoxedStrategy<ConsumerPla
             (3, Just(COp::Recv).boxed()),
             (2, Just(COp::TryView).boxed()),
             (2, Just(COp::RecvView).boxed()),
-            (1, (0u8..3).prop_map(COp::TryIter).boxed()),
+            (p.w_try_iter.max(1), (0u8..3).prop_map(COp::TryIter).boxed()),
             (2, Just(COp::Poll).boxed()),
             (2, Just(COp::Next).boxed()),
             (1, Just(COp::Yield).boxed()),
@@ -550,6 +565,7 @@ pub fn traffic_plan(q: BoxedStrategy<QCfg>, p: TrafficParams, sched_len: usize) 
         let max_streams = if q.flavour == Flavour::Mpmc { 1 } else { p.max_streams };
         let p2 = p.clone();
         let p3 = p.clone();
+        let uni_fork = p.mpmc_uni_fork;
         let streams = vec(
             (consumer_plan(p2.clone(), false), vec(consumer_plan(p2.clone(), true), 0..p2.max_consumers))
                 .prop_map(|(first, mut rest)| {
@@ -566,7 +582,7 @@ pub fn traffic_plan(q: BoxedStrategy<QCfg>, p: TrafficParams, sched_len: usize) 
             schedule(sched_len),
             prop_oneof![7 => Just(false), 1 => Just(true)],
         )
-            .prop_map(|(q, prefill, producers, mut streams, sched, weak_cas)| {
+            .prop_map(move |(q, prefill, producers, mut streams, sched, weak_cas)| {
                 // thread budget: main + producers + consumers (+ one child per forking consumer)
                 // <= MAX_THREADS
                 let forks = streams.iter().flat_map(|s| s.iter()).filter(|c| c.fork.is_some()).count().min(2);
@@ -581,7 +597,7 @@ pub fn traffic_plan(q: BoxedStrategy<QCfg>, p: TrafficParams, sched_len: usize) 
                     total += s.len();
                     total + producers.len() + 1 <= MAX_THREADS
                 });
-                TrafficPlan { q, prefill, producers, streams, sched, weak_cas }
+                TrafficPlan { q, prefill, producers, streams, sched, weak_cas, mpmc_uni_fork: uni_fork }
             })
     })
     .boxed()
@@ -653,7 +669,12 @@ pub fn build_traffic(plan: &TrafficPlan, opts: &ExecOpts) -> Scenario {
             // a consumer of a broadcast stream (sole handle or one of several) may add a stream
             // during traffic; at most two such forks per scenario
             let iter_fork = cp.fork_iter && !q.futures;
-            let do_fork = (q.flavour == Flavour::Broadcast || iter_fork) && forks_left > 0 && cp.fork.is_some();
+            // add_stream_with on the single-consumer futures receiver of a move-out queue
+            let uni_fork = plan.mpmc_uni_fork && q.flavour == Flavour::Mpmc && q.futures && cons.len() == 1 && !cp.fork_iter;
+            let do_fork = (q.flavour == Flavour::Broadcast || iter_fork || uni_fork) && forks_left > 0 && cp.fork.is_some();
+            if uni_fork && do_fork {
+                ops.push(Op::IntoSingle { rx: 0 });
+            }
             let fork_ops = |ops: &mut Vec<Op>| {
                 if iter_fork {
                     let v = cp.fork.map(|f| f.0).unwrap_or(0);
